@@ -21,7 +21,7 @@ CONSTANTS JmpCapacity,     \* slots in the setjmp stack (10 in UtestPlatform.cpp
           Locs             \* redirectable pointer locations
 
 VARIABLES reg,       \* Seq([g, n, ign]) : group, name (sequences of characters), IGNORE_TEST?
-          script,    \* [1..Len(reg) -> [setup, body, teardown : Phase] or "unset"]; Phase = [sets : Seq([loc, val]), ev]
+          script,    \* [1..Len(reg) -> [setup, body, teardown : Phase] or "unset"]; Phase = [sets : Seq([loc, val]), ev : Seq(outcome)], one outcome per repetition (the last one repeats)
           cfg,       \* [repeat, reverse, shuffle, runIgnored, gf, nf, plugins]
           order,     \* current linked-list order of the registry: Seq of indices into reg
           rep, pos, pc, ph, k, setupOk, grpStart,
@@ -77,7 +77,9 @@ Summary(c) == [ok |-> ~IsFailure(c), tests |-> c.tests, run |-> c.run, checks |-
 RECURSIVE SetsOverflowAt(_, _, _)
 SetsOverflowAt(sets, i, fill) ==    \* index of the first redirection that finds the table full, or 0
     IF i > Len(sets) THEN 0 ELSE IF fill >= MaxSet THEN i ELSE SetsOverflowAt(sets, i + 1, fill + 1)
-PhaseFails(p, fill) == SetsOverflowAt(p.sets, 1, fill) # 0 \/ p.ev # "ok"
+\* the outcome a phase is scripted to have in the current repetition
+EvNow(p) == p.ev[IF rep <= Len(p.ev) THEN rep ELSE Len(p.ev)]
+PhaseFails(p, fill) == SetsOverflowAt(p.sets, 1, fill) # 0 \/ EvNow(p) # "ok"
 FillAfter(p, fill) == LET o == SetsOverflowAt(p.sets, 1, fill) IN IF o = 0 THEN fill + Len(p.sets) ELSE fill + o - 1
 ExpectedFailures(t) ==
     LET s == script[t]
@@ -195,21 +197,21 @@ PhSetFull ==   \* FAIL("Maximum number of function pointers installed!") : nothi
 \* the scripted event of the phase
 FailLine(t, p) == 1000 * t + 10 * p
 PhOk ==
-    /\ pc = "phSets" /\ k > Len(CurPhase.sets) /\ CurPhase.ev = "ok"
+    /\ pc = "phSets" /\ k > Len(CurPhase.sets) /\ EvNow(CurPhase) = "ok"
     /\ cnt' = [cnt EXCEPT !.checks = @ + 1]      \* one passing check
     /\ Emit([op |-> "mark", t |-> Cur, ph |-> Phases[ph], w |-> "post"])
     /\ pc' = "phReturn"
     /\ g' = [g EXCEPT !.setupDone = @ \/ ph = 1]
     /\ UNCHANGED <<reg, script, cfg, order, rep, pos, ph, k, setupOk, grpStart, jmp, hasFailed, accFail, accExec, exitv, ptr, table>>
 PhFailCheck ==   \* a failing check: counted, recorded, printed, then the terminator leaves the phase
-    /\ pc = "phSets" /\ k > Len(CurPhase.sets) /\ CurPhase.ev \in {"failCpp", "failC"}
+    /\ pc = "phSets" /\ k > Len(CurPhase.sets) /\ EvNow(CurPhase) \in {"failCpp", "failC"}
     /\ cnt' = [cnt EXCEPT !.checks = @ + 1, !.failures = @ + 1] /\ hasFailed' = TRUE
     /\ Emit([op |-> "fail", t |-> Cur, kind |-> "check", line |-> FailLine(Cur, ph)])
     /\ g' = [g EXCEPT !.failEvents = @ + 1]
     /\ pc' = "phUnwind"
     /\ UNCHANGED <<reg, script, cfg, order, rep, pos, ph, k, setupOk, grpStart, jmp, accFail, accExec, exitv, ptr, table>>
 PhThrow ==       \* an escaping exception: Utest::run's handler records it
-    /\ pc = "phSets" /\ k > Len(CurPhase.sets) /\ CurPhase.ev \in {"throwStd", "throwOther"} /\ HaveExceptions
+    /\ pc = "phSets" /\ k > Len(CurPhase.sets) /\ EvNow(CurPhase) \in {"throwStd", "throwOther"} /\ HaveExceptions
     /\ cnt' = [cnt EXCEPT !.failures = @ + 1] /\ hasFailed' = TRUE
     /\ Emit([op |-> "fail", t |-> Cur, kind |-> "exception", line |-> 0])
     /\ g' = [g EXCEPT !.failEvents = @ + 1]
